@@ -107,3 +107,50 @@ Definition opt_eqb {A} (eqb : A -> A -> bool) (a b : option A) : bool :=
 Definition rmesh_eqb (a b : rmesh) : bool :=
   Nat.eqb (r_nverts a) (r_nverts b) && list_eqb Nat.eqb (r_idx a) (r_idx b)
   && list_eqb vec_eqb (r_pos a) (r_pos b) && opt_eqb (list_eqb nrm_eqb) (r_nrm a) (r_nrm b).
+
+(* ---- chunked reader (stl.Read since /repo 6d82ee8) ----
+   The Go code reads the announced records in chunks of [k = 4096]: each iteration asks
+   binary.Read for min(remaining, k) records at once and fails when the input is short.
+   [read_tris_rest] is [read_tris] that also returns the unread rest; [read_chunks] is the loop.
+   StlProofs.read_chunked_eq_read: for every k >= 1 the chunked reader equals [read]. *)
+Fixpoint read_tris_rest (fuel : nat) (count : N) (l : list N) : option (list tri * list N) :=
+  if count =? 0 then Some ([], l) else
+  match fuel with
+  | O => None
+  | S f => do '(t, r) <- gettri l; do '(ts, r') <- read_tris_rest f (count - 1) r; Some (t :: ts, r')
+  end.
+
+(* fuel = bytes available: every iteration with remaining > 0 and k >= 1 consumes >= 50 of them *)
+Fixpoint read_chunks (fuel : nat) (k remaining : N) (l : list N) : option (list tri * list N) :=
+  if remaining =? 0 then Some ([], l) else
+  match fuel with
+  | O => None
+  | S f =>
+      let c := N.min remaining k in
+      do '(buf, r) <- read_tris_rest (length l) c l;
+      do '(ts, r') <- read_chunks f k (remaining - c) r;
+      Some (buf ++ ts, r')
+  end.
+
+Definition read_chunked (k : N) (bytes : list N) : option (list N * list tri) :=
+  do '(hdr, r) <- take 80 bytes;
+  do '(count, r) <- get32 r;
+  do '(ts, _) <- read_chunks (length r) k count r;
+  Some (hdr, ts).
+
+Definition stl_chunk : N := 4096.     (* const chunk = 1 << 12 in read.go *)
+
+(* observables of stl.ReadMesh as functions of the record list (the body of [read_mesh]) *)
+Definition rm_pos (ts : list tri) : list vec := flat_map (fun t => [ta t; tb t; tc t]) ts.
+Definition rm_nrm (ts : list tri) : option (list nrm) :=
+  if existsb (fun t => negb (vec_zero (tn t))) ts
+  then Some (flat_map (fun t => let x := tri_nrm t in [x; x; x]) ts) else None.
+
+(* the records stl.WriteMesh hands to stl.Write when corner j of the index buffer resolves to
+   position [corner j] and triangle t gets facet normal [fn t] (N-indexed: usable for large meshes) *)
+Fixpoint tris_from (fuel : nat) (t : N) (fn : N -> vec) (corner : N -> vec) : list tri :=
+  match fuel with
+  | O => []
+  | S f => {| tn := fn t; ta := corner (3 * t); tb := corner (3 * t + 1); tc := corner (3 * t + 2); tattr := 0 |}
+           :: tris_from f (t + 1) fn corner
+  end.
